@@ -27,8 +27,10 @@ def augment_exception_message_and_reraise(exception, message):
     # Some classes can't be proxied (they refuse subclassing, `__new__` rejects
     # `args`, `args` is read-only, ...): the original exception, with the message
     # attached as a note, beats an unrelated error from building the proxy.
-    if hasattr(exception, 'add_note'):
+    try:
       exception.add_note(message.strip())
+    except Exception:  # pylint: disable=broad-except
+      pass  # No `add_note` (Python < 3.11), or an exception that rejects it.
     raise exception  # pylint: disable=raise-missing-from
   raise proxy.with_traceback(exception.__traceback__)
 
